@@ -669,3 +669,70 @@ VK(url_fields_step) {
   vk_put(out + 8, cap - 8, proto);
   return rv;
 }
+
+// parse under a limit (C09 / C08 base case): in = [base (p0 bytes)] input ; p1 = limit; the base is parsed under the same limit.
+// returns bit0 parse ok (aggregator) | bit1 base failed | bit2 ada::url ok (no base only) | bit3 can_parse | href_len<<16
+VK(parse_limited) {
+  UNUSED;
+  ada::set_max_input_length(uint32_t(p1));
+  std::string_view input(reinterpret_cast<const char*>(in + p0), n - p0);
+  uint64_t res = 0;
+  bool cp;
+  if (p0) {
+    std::string_view bv(reinterpret_cast<const char*>(in), p0);
+    cp = ada::can_parse(input, &bv);
+    auto b = ada::parse<ada::url_aggregator>(bv);
+    if (!b) res |= 2;
+    else { auto r = ada::parse<ada::url_aggregator>(input, &*b); if (r) res |= 1 | (uint64_t(r->get_href().size()) << 16); }
+  } else {
+    cp = ada::can_parse(input);
+    auto r = ada::parse<ada::url_aggregator>(input);
+    if (r) res |= 1 | (uint64_t(r->get_href().size()) << 16);
+    auto r2 = ada::parse<ada::url>(input);
+    if (r2) res |= 4;
+  }
+  if (cp) res |= 8;
+  ada::set_max_input_length(0xffffffffu);
+  return res;
+}
+
+// whole-parse differential for the native base cases (C04, C05, C17): in = [base (p0 bytes)] input.
+// returns 0 when the input does not parse (consistently); otherwise 1<<63 | disagreement bits:
+//  1 url vs aggregator success, 2 href, 4 a getter / predicate, 8 C API (ada_parse[_with_base]) vs C++, 16 href is not a parse fixed point,
+//  32 href byte outside 0x21-0x7E (space allowed strictly inside an opaque path), 64 get_href_size / components
+VK(diff_parse) {
+  UNUSED;
+  std::string_view input(reinterpret_cast<const char*>(in + p0), n - p0);
+  std::string_view bv(reinterpret_cast<const char*>(in), p0);
+  ada::result<ada::url_aggregator> ba; ada::result<ada::url> bu;
+  if (p0) { ba = ada::parse<ada::url_aggregator>(bv); bu = ada::parse<ada::url>(bv); if (!ba || !bu) return (bool(ba) != bool(bu)) ? ((1ull << 63) | 1) : 0; }
+  auto a = p0 ? ada::parse<ada::url_aggregator>(input, &*ba) : ada::parse<ada::url_aggregator>(input);
+  auto u = p0 ? ada::parse<ada::url>(input, &*bu) : ada::parse<ada::url>(input);
+  uint64_t d = 0;
+  if (bool(a) != bool(u)) d |= 1;
+  void* h = p0 ? ada_parse_with_base(reinterpret_cast<const char*>(in + p0), n - p0, reinterpret_cast<const char*>(in), p0)
+               : ada_parse(reinterpret_cast<const char*>(in), n);
+  if (ada_is_valid(h) != bool(a)) d |= 8;
+  if (a && u) {
+    std::string ha(a->get_href()), hu = u->get_href();
+    if (ha != hu) d |= 2;
+    if (a->get_protocol() != u->get_protocol() || a->get_username() != u->get_username() || a->get_password() != u->get_password() ||
+        a->get_host() != u->get_host() || a->get_hostname() != u->get_hostname() || a->get_port() != u->get_port() ||
+        a->get_pathname() != u->get_pathname() || a->get_search() != u->get_search() || a->get_hash() != u->get_hash() ||
+        a->get_origin() != u->get_origin() || a->has_opaque_path != u->has_opaque_path || a->host_type != u->host_type ||
+        a->has_credentials() != u->has_credentials() || a->has_hash() != u->has_hash() || a->has_search() != u->has_search()) d |= 4;
+    if (u->get_href_size() != hu.size() || a->get_href_size() != ha.size()) d |= 64;
+    if (ada_is_valid(h)) { ada_string s = ada_get_href(h); if (std::string_view(s.data, s.length) != ha) d |= 8; }
+    auto again = ada::parse<ada::url_aggregator>(ha);
+    if (!again || again->get_href() != ha) d |= 16;
+    std::string_view path = a->get_pathname();
+    size_t pb = a->get_components().pathname_start, pe = pb + path.size();
+    for (size_t i = 0; i < ha.size(); i++) {
+      unsigned char c = static_cast<unsigned char>(ha[i]);
+      if (c < 0x21 || c > 0x7e) { if (!(c == 0x20 && a->has_opaque_path && i >= pb && i + 1 < pe)) d |= 32; }
+    }
+  }
+  ada_free(h);
+  if (!a && !u && d == 0) return 0;
+  return (1ull << 63) | d;
+}
